@@ -1,7 +1,8 @@
 (* C09  Constant keys cannot be changed by later layers.
    Statements only; proofs in Proofs/MappingFacts.v (model: Mapping::insert_impl / merge) and
    Proofs/DeepMergeFacts.v (specification Spec/DeepMerge.v, the oracle of the correspondence run). *)
-From RV Require Import Model.Mapping Model.Yaml Spec.DeepMerge Proofs.MappingFacts Proofs.DeepMergeFacts.
+From RV Require Import Model.Mapping Model.Yaml Model.Interp Model.Run Spec.DeepMerge Proofs.MappingFacts Proofs.DeepMergeFacts
+     Proofs.Refinement.
 
 (** A present constant key rejects every later write -- any value, any marker, forced or not --
     with an error naming the key; the mapping is not modified (the result is an error). *)
@@ -59,3 +60,27 @@ Example C09_nonvacuous :
   insert_impl m (VStr "~k") (VNum (NInt 2)) false false = Err (EConst (VStr "k")) /\
   exists m', insert_impl m (VStr "j") (VNum (NInt 2)) false false = Ok m'.
 Proof. cbv. split; [reflexivity | eexists; reflexivity]. Qed.
+
+(** End to end, at any nesting depth (through the refinement theorem of C02): whenever the
+    specification reports a constant-key violation for a stack of reference-free clean layers
+    -- the key may sit in a mapping nested arbitrarily deep -- rendering that stack fails with
+    the constant-key error naming the same key (raised while merging the layers when the key is
+    at the top level, while interpolating otherwise); it never yields a value. *)
+Theorem C09_constant_violation_fails_the_render_at_any_depth :
+  forall f ys k, ys <> [] -> Forall layer_ok ys ->
+    deep_merge (S f) ys = SErr (SConst k) ->
+    exists F0, forall F, F0 <= F ->
+      let r := (m <- Run.merge_layers ys ;; render_with_self F (VMap m)) in
+      r = Err (EConst k) \/ r = Err (EResolving (EConst k)).
+Proof.
+  intros f ys k Hne Hl Hs. destruct (run_value_refines_deep_merge f ys Hne Hl) as [F0 H]. exists F0. intros F HF.
+  specialize (H F HF). rewrite Hs in H. exact H.
+Qed.
+Eval cbv in "ASSUMPTIONS-OF C09_constant_violation_fails_the_render_at_any_depth"%string. Print Assumptions C09_constant_violation_fails_the_render_at_any_depth.
+
+(** non-vacuity: a constant two levels down, rewritten by a later layer *)
+Example C09_nested_constant_nonvacuous :
+  let l1 := YMap [(YStr "a", YMap [(YStr "b", YMap [(YStr "=c", YNum (NInt 1))])])] in
+  let l2 := YMap [(YStr "a", YMap [(YStr "b", YMap [(YStr "c", YNum (NInt 2))])])] in
+  Forall layer_ok [l1; l2] /\ deep_merge 6 [l1; l2] = SErr (SConst (VStr "c")).
+Proof. cbn zeta. split; [prove_layer_ok | vm_compute; reflexivity]. Qed.
